@@ -25,7 +25,7 @@ def maybe_frame(ex, name, dtype="float64"):
 
 
 def df_obj(ex, nrows):
-    return VOpaque("df", ex.st.fresh_int("df"), {"nrows": nrows})
+    return VOpaque("df", ex.st.fresh_int("df"), {"nrows": nrows, "type": "pandas.DataFrame"})
 
 
 def install_df(cfg: Cfg):
